@@ -507,7 +507,30 @@ impl<'a> MG<'a> {
                             let k = self.r.range(1, 3);
                             Iterable::Set((0..k).map(|_| self.int_lit()).collect())
                         }
-                        _ => Iterable::Expr(self.ident()),
+                        _ => {
+                            // an identifier, an indexed or sliced identifier, a call
+                            let e = match self.r.below(if self.cfg.sem_safe { 2 } else { 5 }) {
+                                0 | 1 => self.ident(),
+                                2 => {
+                                    let b = self.ident();
+                                    let ix = self.index(1);
+                                    self.e(EK::Index(Box::new(b), vec![ix]))
+                                }
+                                3 => {
+                                    let b = self.ident();
+                                    let a = self.int_lit();
+                                    let c = self.int_lit();
+                                    let r = self.e(EK::Range(Box::new(a), None, Box::new(c)));
+                                    self.e(EK::Index(Box::new(b), vec![MIndex::List(vec![r])]))
+                                }
+                                _ => {
+                                    let n = self.name();
+                                    let a = self.ident();
+                                    self.e(EK::Call(n, vec![a]))
+                                }
+                            };
+                            Iterable::Expr(e)
+                        }
                     };
                     // an identifier iterable followed by a single-statement body is ambiguous for
                     // this parser (`for int i in a g q;`): use a block there
